@@ -5,7 +5,7 @@ import glob, json, os, sys
 sys.path.insert(0, '/verif')
 from sa.selftest import runner
 
-ALL = ['C01', 'C02', 'C03', 'C04', 'C05', 'C06', 'C07', 'C08', 'C09', 'C10', 'C11', 'C12', 'C13', 'C14', 'C15', 'C16', 'C17', 'C18', 'C20']
+ALL = ['C01', 'C02', 'C03', 'C04', 'C05', 'C06', 'C07', 'C08', 'C09', 'C10', 'C11', 'C12', 'C13', 'C14', 'C15', 'C16', 'C17', 'C18', 'C19', 'C20']
 only = sys.argv[1] if len(sys.argv) > 1 else None
 variants = []
 for d in sorted(glob.glob('/verif/seeded/*/')):
